@@ -1,8 +1,9 @@
 (* Extraction of the parser and worklist-builder models (ExtrOcamlBasic only). *)
 Require Import ExtrOcamlBasic.
 From Coq Require Import List NArith ZArith.
-From GV Require Import Base.Result Gen.TokenTypes Gen.Defs Gen.Instr Model.Parser Model.BuilderWL.
+From GV Require Import Base.Result Gen.TokenTypes Gen.Defs Gen.Instr Model.Parser Model.BuilderWL Spec.RefTable Spec.Pratt.
 Cd "../build/ocaml".
 Extraction "pipe_model.ml" parse trim_tokens build build_fuel empty_init all_token_type
-  definition_index secondary_index instruction_index token_type_index Z.of_N N.of_nat N.to_nat.
+  definition_index secondary_index instruction_index token_type_index Z.of_N N.of_nat N.to_nat
+  pratt c02_agree.
 Cd "../../coq".
